@@ -42,6 +42,9 @@
   What is only stated (kept as `def … : Prop`):
     * C04_statement           semantic preservation; needs the Core machine (`Scc/Core/Sem.lean`,
                               written by another component), which is a parameter of the statement.
+                              Instantiated and PROVED in `Scc/Props/C04Sem.lean` (`C04_sem`) with two
+                              further decidable side conditions; without them the instance
+                              `C04_full_statement` is false (`C04_full_statement_false`).
     * C04_shrink_typed_statement  typing preservation S3 → S4 (checked on all 40 corpus programs by
                               running `wtFsScopedCheck`, `uniqueIdsCheck` on S3 and `wtAxCheck` on S4).
 -/
